@@ -25,6 +25,8 @@ from fractions import Fraction
 
 import z3
 
+sys.set_int_max_str_digits(0)
+
 
 # --------------------------------------------------------------------------
 # Control-flow exceptions (BaseException so that ``except Exception`` in the
@@ -801,6 +803,7 @@ class Engine:
         self.path_unknown = False
         self.inputs = {}
         self.axioms_added = set()
+        self.lazy = []
 
     def begin(self, prefix):
         self.reset_path(prefix)
@@ -975,6 +978,11 @@ class Engine:
                 self.path_unknown = True
         self.known[key] = (z, True)
 
+    def add_lazy_axiom(self, cond):
+        """A fact (typically nonlinear) that never influences control flow: kept out
+        of the path condition and supplied only to obligations that need it."""
+        self.lazy.append(zbool(cond))
+
     def add_axiom(self, z):
         """Fact about uninterpreted symbols (library contract); no feasibility check."""
         self.solver.add(z)
@@ -1028,11 +1036,14 @@ class Engine:
             res, model = self._check()
         else:
             res, model = self._check(z3.Not(z))
+        if res != 'unsat' and self.lazy:
+            # retry with the facts that were kept out of the path condition
+            res, model = self._check(z3.Not(z), *self.lazy)
         if res == 'unsat':
             self.stats.discharged += 1
             return True
         if res == 'sat':
-            res2, model2 = self.nice_model(z3.Not(z))
+            res2, model2 = self.nice_model(z3.Not(z), *self.lazy)
             if res2 == 'sat':
                 model = model2
             self.stats.failed += 1
